@@ -284,7 +284,20 @@ func Main(t *testing.T, units ...Unit) {
 			}
 		}
 		if hashMode {
-			res.LogHashes[strconv.Itoa(idx)] = fmt.Sprintf("%016x", r.LogHash())
+			h := r.LogHash()
+			for _, v := range r.vals {
+				h = Mix(h, uint64(v))
+			}
+			for _, kv := range r.scenario {
+				h = Mix(h, HashString(kv.K), HashString(fmt.Sprint(kv.V)))
+			}
+			for _, s := range r.nontriv {
+				h = Mix(h, HashString(s))
+			}
+			if r.viol != nil {
+				h = Mix(h, HashString(r.viol.Key()+r.viol.Msg))
+			}
+			res.LogHashes[strconv.Itoa(idx)] = fmt.Sprintf("%016x", h)
 		}
 		for _, s := range r.nontriv {
 			if len(acc.Nontriv) < maxDistinct {
